@@ -15,6 +15,7 @@
   `index × slot` the position of chunk `index` in the file (C12).
 -/
 import FastPasta.Model.Cdp
+import FastPasta.Proofs.StateSrcTie
 namespace FastPasta
 namespace C07
 
@@ -600,6 +601,42 @@ theorem finding_truthful (cfg : CheckCfg) (all : List Packet) : ∀ (ps : List P
 theorem finding_truthful_init (cfg : CheckCfg) (ps : List Packet) (s' : LinkSt) (ms : List Msg)
     (h : linkRun cfg (LinkSt.init cfg) ps = .ok (s', ms)) : ∀ x ∈ ms, Truthful ps x :=
   (finding_truthful cfg ps ps (fun _ hp => hp) (LinkSt.init cfg) (fun f hf => by simp [LinkSt.init] at hf) s' ms h).1
+
+
+/-! ### tie by translation: the offset carried by every word-level message is computed by the source's own `CdpTracker`
+    (`Spec/StateSrcGen.lean`, translated from `cdp_running/cdp_tracker.rs` on this run) -/
+/-- the model's tracker fields read off the source's tracker -/
+def trackerAbs (tr : SrcState.CdpTracker) (s : CdpSt) : Prop :=
+  s.payloadPos = tr.f_payload_mem_pos ∧ s.wordCount = tr.f_gbt_word_counter ∧ s.slot = 10 + tr.f_gbt_word_padding_size_bytes ∧
+  s.startOfData = tr.f_is_start_of_data
+
+/-- a new packet: `CdpTracker::new(rdh, offset)` is the tracker part of `setCurrentRdh` (payload at offset + 64, no word yet,
+    slot 16 for data format 0 and 10 otherwise — from the RDH's data format, whatever the payload looks like) -/
+theorem tracker_new_src (c : SrcRdh.RdhCru) (off : Nat) (h : off + 64 < 2^64) (s : CdpSt) :
+    trackerAbs (SrcState.CdpTracker.new c off)
+      { s with payloadPos := off + 64, wordCount := 0, slot := if (SrcTie.toModel c).dataFormat == 0 then 16 else 10, startOfData := true } := by
+  obtain ⟨h1, h2, h3, h4⟩ := SrcTie.tracker_new c off h
+  exact ⟨h1.symm, h2.symm, h3.symm, h4.symm⟩
+
+/-- **`CdpTracker::current_word_mem_pos` = `CdpSt.wordPos`** = payload start + (words counted − 1) × slot, for every tracker
+    state that has counted between 1 and 65535 words of a payload below the 2^64 address range -/
+theorem word_pos_src (tr : SrcState.CdpTracker) (s : CdpSt) (ha : trackerAbs tr s) (h1 : 1 ≤ s.wordCount) (h2 : s.wordCount < 65536)
+    (hp : tr.f_gbt_word_padding_size_bytes ≤ 6) (hb : s.payloadPos + 65536 * 16 < 2^64) :
+    tr.current_word_mem_pos = s.wordPos := by
+  obtain ⟨a1, a2, a3, _⟩ := ha
+  rw [SrcTie.tracker_word_pos tr (by omega) (by omega) hp (by omega)]
+  unfold CdpSt.wordPos
+  rw [a1, a2, a3]
+
+/-- counting a word and the "start of data" flag -/
+theorem tracker_step_src (tr : SrcState.CdpTracker) (s : CdpSt) (ha : trackerAbs tr s) (h : s.wordCount + 1 < 65536) :
+    trackerAbs (tr.incr_word_count).2 { s with wordCount := s.wordCount + 1 } ∧
+    trackerAbs (tr.set_data_seen).2 { s with startOfData := false } ∧ tr.start_of_data = s.startOfData := by
+  obtain ⟨a1, a2, a3, a4⟩ := ha
+  have hi := SrcTie.tracker_incr tr (by omega)
+  refine ⟨?_, ?_, a4.symm⟩
+  · rw [hi]; exact ⟨a1, by simp [a2], a3, a4⟩
+  · exact ⟨a1, a2, a3, rfl⟩
 
 end C07
 end FastPasta
